@@ -41,6 +41,9 @@ structure Cfg where
   /-- `ParseBlock` requires the counted entries to consume the whole decoded payload (so the
       16-bit `EntryCount`, which no checksum covers, cannot be changed unnoticed) -/
   parseConsumesAll : Bool
+  /-- `chroniclerV2.Write` tells its caller when `WriteEntry` refused an entry (it has a result that
+      carries the refusal); `false`: the refusal is only logged and the entry silently dropped -/
+  chronSurfacesError : Bool
   /-- `ReadSwampName` falls back to `LoadIndex` (metadata entry) for non-V3 files -/
   v2Fallback : Bool
   /-- `createNewFile` refuses a swamp name longer than 65535 bytes -/
@@ -51,7 +54,7 @@ structure Cfg where
 def goodCfg : Cfg :=
   { rejectsEmptyKey := true, rejectsLongKey := true, flushGe := true, flushAtCount := true,
     deleteRemoves := true, validatesCrc := true, validatesULen := true, boundsCompressedSize := true,
-    boundsDecodedLen := true, parseConsumesAll := true, shortPayloadIsEOF := true, v2Fallback := true, rejectsLongName := true }
+    boundsDecodedLen := true, parseConsumesAll := true, shortPayloadIsEOF := true, chronSurfacesError := true, v2Fallback := true, rejectsLongName := true }
 
 /-- canonical error classes of the reader -/
 inductive Err where
